@@ -32,7 +32,8 @@ a request whose `headers=` / `params=` are dict objects of the caller never ends
 internal `KeyError`. -/
 theorem view_defined (H : Heap) (hi : Inv H) (hdi : DInv H) (c : Nat) (hc : c < H.conns.length) (args : Args)
     (hh : ∀ n, args.headers = some n → n ∈ H.userDicts)
-    (hp : ∀ n, args.params = some n → n ∈ H.userDicts) :
+    (hp : ∀ n, args.params = some n → n ∈ H.userDicts)
+    (hda : ∀ r, args.data = .obj r → r < H.datas.length) :
     (∃ v, viewCore H c = some v) ∧ sentCore H c args ≠ .error .keyError := by
   obtain ⟨cn, hcn⟩ : ∃ cn, H.conns[c]? = some cn := ⟨H.conns[c], by simp [hc]⟩
   obtain ⟨h1, h2⟩ := hi.conn_ok c cn hcn
@@ -51,7 +52,15 @@ theorem view_defined (H : Heap) (hi : Inv H) (hdi : DInv H) (c : Nat) (hc : c < 
     | some n =>
       obtain ⟨d, u, _, h2⟩ := optParams_user hdi (hp n hr)
       exact ⟨_, h2⟩
-  rw [sentCore_eq, hv, hhd, hpd]
+  obtain ⟨body, hbd⟩ : ∃ b, optData H args.data = some b := by
+    cases hr : args.data with
+    | obj r =>
+      have hlt := hda r hr
+      exact ⟨.json H.datas[r], by simp [optData, hlt]⟩
+    | none => exact ⟨_, rfl⟩
+    | bytes b => exact ⟨_, rfl⟩
+    | str s => exact ⟨_, rfl⟩
+  rw [sentCore_eq, hv, hhd, hpd, hbd]
   simp only [pureSend]
   cases hr : applyAll H.lists[cn.alist] { path := args.path, headers := copyHeaders hd } with
   | ok ra => simp
@@ -83,8 +92,9 @@ the adapters applied are exactly the current content of `c.adapters`, by `applyA
 list order (`pureSend` unfolds to `applyAll` followed by `assemble`). -/
 theorem request_uses_chain (H : Heap) (c : Nat) (args : Args) (v : Conn × Str × Bool × List Adapter)
     (hd : Option Dict) (pd : Option UDict) (hv : viewCore H c = some v) (hh : optDict H args.headers = some hd)
-    (hp : optParams H args.params = some pd) : sentCore H c args = pureSend v hd pd args := by
-  rw [sentCore_eq, hv, hh, hp]
+    (hp : optParams H args.params = some pd) (body : Body) (hb : optData H args.data = some body) :
+    sentCore H c args = pureSend v hd pd body args := by
+  rw [sentCore_eq, hv, hh, hp, hb]
 
 /-- Deriving: `cls(parent, adapters=own)` (also the auth wrappers, `clone`, and the connection
 `get_conn` makes for a prefix) creates connection number `H.conns.length` whose adapters are the own
@@ -196,9 +206,9 @@ theorem auth_accepts (as : List Adapter) (path : Str) (hd : Option Dict) (hcd : 
 theorem auth_refused (H : Heap) (c : Nat) (args : Args) (v : Conn × Str × Bool × List Adapter)
     (hd : Option Dict) (pd : Option UDict) (hv : viewCore H c = some v) (hh : optDict H args.headers = some hd)
     (hcd : CallerDict hd) (hp : optParams H args.params = some pd) (h2 : 2 ≤ (authHdrs v.2.2.2).length)
-    (hb : Adapter.boom true ∉ v.2.2.2) :
+    (hb : Adapter.boom true ∉ v.2.2.2) (body : Body) (hbd : optData H args.data = some body) :
     sentCore H c args = .error .assertion := by
-  rw [request_uses_chain H c args v hd pd hv hh hp, pureSend,
+  rw [request_uses_chain H c args v hd pd hv hh hp body hbd, pureSend,
     applyAll_two_auth _ _ (TraceOk_copyHeaders hd hcd) hb h2]
 
 /-- The value of the basic / client / token adapters: for **any** encoder `b64` with decoder `dec`
@@ -367,8 +377,8 @@ theorem response_chain (own par : List Adapter) (dec0 : J) :
 /-- The value `do_request` returns through connection `c` is that fold over `c.adapters`, applied to
 the decoded body of the response (`""` for an empty body). -/
 theorem request_response (v : Conn × Str × Bool × List Adapter) (hd : Option Dict) (pd : Option UDict)
-    (args : Args) (s : Sent)
-    (h : pureSend v hd pd args = .ok s) : s.resp = respFold v.2.2.2 (decodeResp args.raw args.resp) := by
+    (body : Body) (args : Args) (s : Sent)
+    (h : pureSend v hd pd body args = .ok s) : s.resp = respFold v.2.2.2 (decodeResp args.raw args.resp) := by
   simp only [pureSend] at h
   split at h
   · cases h
@@ -381,7 +391,8 @@ been sent and the exception is the outcome. Without a refusing adapter in the ch
 refusal is the `AssertionError` for a second `Authorization`. -/
 theorem exception_propagates (H : Heap) (c : Nat) (args : Args) (cn : Conn) (impl : Impl) (as : List Adapter)
     (hd : Option Dict) (pd : Option UDict) (hv : connView H c = some (cn, impl, as))
-    (hh : optDict H args.headers = some hd) (hcd : CallerDict hd) (hp : optParams H args.params = some pd) :
+    (hh : optDict H args.headers = some hd) (hcd : CallerDict hd) (hp : optParams H args.params = some pd)
+    (body : Body) (hbd : optData H args.data = some body) :
     (∀ e, applyAll as ⟨args.path, copyHeaders hd⟩ = .error e →
         (request H c args).2 = .error e ∧ (request H c args).1.impls = H.impls) ∧
     (∀ ra e, applyAll as ⟨args.path, copyHeaders hd⟩ = .ok ra →
@@ -392,8 +403,8 @@ theorem exception_propagates (H : Heap) (c : Nat) (args : Args) (cn : Conn) (imp
   obtain ⟨hval, _, hrefused⟩ := request_spec H c args
   have hpure : requestPure H c args = match applyAll as ⟨args.path, copyHeaders hd⟩ with
       | .error e => .error e
-      | .ok ra => .ok (assemble impl ra args.method pd args.data (respFold as (decodeResp args.raw args.resp))) := by
-    simp only [requestPure, hv, hh, hp]
+      | .ok ra => .ok (assemble impl ra args.method pd body (respFold as (decodeResp args.raw args.resp))) := by
+    simp only [requestPure, hv, hh, hp, hbd]
     cases applyAll as ⟨args.path, copyHeaders hd⟩ <;> rfl
   refine ⟨fun e he => ?_, ?_, ?_, ?_⟩
   · have h2 : (request H c args).2 = .error e := by rw [hval, hpure, he]
@@ -427,10 +438,13 @@ its own lists — leaves every request through `c` unchanged. -/
 theorem frame (H : Heap) (hi : Inv H) (ops : List Op) (c : Nat) (hc : c < H.conns.length)
     (hno : ∀ op ∈ ops, ¬ op.addsTo c) (args : Args)
     (hh : ∀ n, args.headers = some n → n < H.dicts.length)
-    (hp : ∀ n, args.params = some n → n < H.dicts.length) :
+    (hp : ∀ n, args.params = some n → n < H.dicts.length)
+    (hda : ∀ r, args.data = .obj r → r < H.datas.length) :
     sentCore (run H ops) c args = sentCore H c args := by
   obtain ⟨_, y, hy⟩ := run_mono H ops
-  rw [sentCore_eq, sentCore_eq, run_view hi hc ops hno, optDict_ext y hy _ hh, optParams_ext y hy _ hp]
+  obtain ⟨z, hz⟩ := run_datas H ops
+  rw [sentCore_eq, sentCore_eq, run_view hi hc ops hno, optDict_ext y hy _ hh, optParams_ext y hy _ hp,
+    optData_ext z hz _ hda]
 
 /-- The frame property with its hypotheses discharged by reachability: after any history `ops0`
 (from nothing), any further history `ops` without `add_adapter` on `c` leaves every request through
@@ -439,7 +453,8 @@ request is never the model's internal `KeyError`. -/
 theorem frame_reachable (ops0 ops : List Op) (c : Nat) (hc : c < (run Heap.empty ops0).conns.length)
     (hno : ∀ op ∈ ops, ¬ op.addsTo c) (args : Args)
     (hh : ∀ n, args.headers = some n → n ∈ (run Heap.empty ops0).userDicts)
-    (hp : ∀ n, args.params = some n → n ∈ (run Heap.empty ops0).userDicts) :
+    (hp : ∀ n, args.params = some n → n ∈ (run Heap.empty ops0).userDicts)
+    (hda : ∀ r, args.data = .obj r → r < (run Heap.empty ops0).datas.length) :
     sentCore (run (run Heap.empty ops0) ops) c args = sentCore (run Heap.empty ops0) c args ∧
     sentCore (run Heap.empty ops0) c args ≠ .error .keyError := by
   obtain ⟨hi, hd⟩ := reachable_inv ops0
@@ -447,8 +462,8 @@ theorem frame_reachable (ops0 ops : List Op) (c : Nat) (hc : c < (run Heap.empty
     intro n hn
     obtain ⟨u, hu, _⟩ := hd n hn
     exact (List.getElem?_eq_some_iff.mp hu).1
-  exact ⟨frame _ hi ops c hc hno args (fun n h => lt n (hh n h)) (fun n h => lt n (hp n h)),
-    (view_defined _ hi hd c hc args hh hp).2⟩
+  exact ⟨frame _ hi ops c hc hno args (fun n h => lt n (hh n h)) (fun n h => lt n (hp n h)) hda,
+    (view_defined _ hi hd c hc args hh hp hda).2⟩
 
 /-- **A connection depends only on its own construction and its own `add_adapter` calls.** From the
 moment `cls(parent, adapters=own)` returns, through every history without `add_adapter` on the new
@@ -466,17 +481,28 @@ theorem chain_stable (H H' : Heap) (hi : Inv H) (p n : Nat) (own : Own) (plain :
   rw [run_view hi' (by omega) ops hno]
   exact hview
 
+/-- The two facts about the source that the aliasing structure of the model builds in, as the
+translator reads them on every run: `RequestArguments.headers` is `headers.copy() if headers else {}`
+(a new dict object), and `self.adapters` is assigned once, the sum `own_adapters + parent_conn.adapters`
+(a new list object). If the source stops saying so, this obligation no longer checks. -/
+theorem aliasing_facts : Gen.C17.headersFresh = true ∧ Gen.C17.adaptersFresh = true := by decide
+
 /-- **The caller's objects are never written.** `RequestArguments.headers` is a new dict object per
 request and the adapters and `do_request` write to that object only: no history changes any dict
-object that exists — in particular none the caller created (headers / params) — and a list of adapters of the caller changes only by the caller's own appends. -/
+object that exists — in particular none the caller created (headers / params); a structured `data=`
+object of the caller is only read (`json.dumps`), no history changes one; and a list of adapters of the caller changes only by the caller's own appends. -/
 theorem caller_unchanged (H : Heap) (hi : Inv H) (ops : List Op) :
     (∀ d, d < H.dicts.length → (run H ops).dicts[d]? = H.dicts[d]?) ∧
+    (∀ r, r < H.datas.length → (run H ops).datas[r]? = H.datas[r]?) ∧
     (∀ l, l ∈ H.userLists → (∀ op ∈ ops, ∀ a, op ≠ .listAppend l a) →
         (run H ops).lists[l]? = H.lists[l]?) := by
-  constructor
+  refine ⟨?_, ?_, ?_⟩
   · intro d hd
     obtain ⟨_, y, hy⟩ := run_mono H ops
     rw [hy, List.getElem?_append_left hd]
+  · intro r hr
+    obtain ⟨z, hz⟩ := run_datas H ops
+    rw [hz, List.getElem?_append_left hr]
   · intro l hl hno
     exact run_userList hi hl ops hno
 
@@ -611,7 +637,7 @@ private def ops1 : List Op :=
     .mk (.conn 1) (.list 2) true,                                               -- 2  HttpConn(c1, adapters=L)
     .add 0 (.trace "9.".toList) ]
 
-private def getArgs : Args := ⟨"/p".toList, some "GET".toList, none, .none, none, none, false⟩
+private def getArgs : Args := ⟨"/p".toList, some "GET".toList, none, DataArg.none, none, none, false⟩
 
 /-- inner prefix outermost, one Authorization header, trace once; the later `add` on connection 0
 is not seen through connection 2 -/
